@@ -306,7 +306,45 @@ pub struct Obs {
 /// The documented re-feed loop over the in-memory handler (varlink/src/test.rs): for each chunk, prepend the
 /// tail RETURNED by the previous invocation — and nothing else: the reader handed to handle() is a temporary
 /// over the caller's buffer, whatever the handler leaves unread in it is gone — and pass the upgraded interface on.
+/// In-process calls into the library cannot be interrupted.  A watchdog thread notices a call that has not returned for
+/// NO_RETURN_LIMIT, reports it as an observation (failure record + summary) and ends the process.
+pub const NO_RETURN_LIMIT: Duration = Duration::from_secs(45);
+static ACTIVE: std::sync::Mutex<Vec<(u64, std::time::Instant, String)>> = std::sync::Mutex::new(Vec::new());
+static WATCHDOG: std::sync::Once = std::sync::Once::new();
+static NEXT_ID: std::sync::atomic::AtomicU64 = std::sync::atomic::AtomicU64::new(1);
+
+pub struct Watched(u64);
+impl Drop for Watched {
+    fn drop(&mut self) {
+        ACTIVE.lock().unwrap_or_else(|e| e.into_inner()).retain(|x| x.0 != self.0);
+    }
+}
+pub fn watched(what: &str, input: &[Vec<u8>]) -> Watched {
+    WATCHDOG.call_once(|| {
+        std::thread::spawn(|| loop {
+            std::thread::sleep(Duration::from_secs(1));
+            let stuck = ACTIVE.lock().unwrap_or_else(|e| e.into_inner()).iter().find(|x| x.1.elapsed() > NO_RETURN_LIMIT).map(|x| x.2.clone());
+            if let Some(desc) = stuck {
+                emit(&json!({"fail": true, "case": 0, "variant": "no-return", "sig": "call into the library does not return",
+                             "detail": format!("a call into the library has not returned for {:?}: {}", NO_RETURN_LIMIT, desc)}));
+                emit(&json!({"summary": true, "cases": 0, "executions": 0, "failures": 1, "aborted": "no-return"}));
+                std::process::exit(0);
+            }
+        });
+    });
+    let id = NEXT_ID.fetch_add(1, std::sync::atomic::Ordering::Relaxed);
+    let mut all: Vec<u8> = Vec::new();
+    for c in input {
+        all.extend_from_slice(c);
+        all.push(b'|');
+    }
+    all.truncate(600);
+    ACTIVE.lock().unwrap_or_else(|e| e.into_inner()).push((id, std::time::Instant::now(), format!("{} on input (chunks separated by |) {:?}", what, lossy(&all))));
+    Watched(id)
+}
+
 pub fn run_mem(service: &VarlinkService, log: &SharedLog, chunks: &[Vec<u8>], up_tok: Option<&str>) -> Obs {
+    let _w = watched("VarlinkService::handle", chunks);
     let mut obs = Obs::default();
     let mut tail: Vec<u8> = Vec::new();
     let mut iface: Option<String> = None;
@@ -374,7 +412,10 @@ pub struct Server {
     pub address: String,
     pub log: SharedLog,
     stop: Arc<AtomicBool>,
-    th: Option<std::thread::JoinHandle<varlink::Result<()>>>,
+    th: Option<std::thread::JoinHandle<()>>,
+    done: mpsc::Receiver<varlink::Result<()>>,
+    /// listen() did not return within the grace period after the stop flag was set (a worker never finished)
+    pub stuck: bool,
 }
 
 impl Server {
@@ -392,7 +433,10 @@ impl Server {
             stop_listening: Some(stop.clone()),
         };
         let addr = address.to_string();
-        let th = std::thread::spawn(move || varlink::listen(service, &addr, &cfg));
+        let (dtx, done) = mpsc::channel();
+        let th = std::thread::spawn(move || {
+            let _ = dtx.send(varlink::listen(service, &addr, &cfg));
+        });
         // wait until it accepts
         let t0 = Instant::now();
         loop {
@@ -406,11 +450,28 @@ impl Server {
             }
             std::thread::sleep(Duration::from_millis(5));
         }
-        Server { address: address.to_string(), log, stop, th: Some(th) }
+        Server { address: address.to_string(), log, stop, th: Some(th), done, stuck: false }
     }
+    /// Set the stop flag and wait for listen() to return, but not for ever: the callers have made their observations by now, and
+    /// a server whose workers never finish must not turn them into a tool time-out.
     pub fn stop(&mut self) -> Option<varlink::Result<()>> {
         self.stop.store(true, Ordering::SeqCst);
-        self.th.take().map(|t| t.join().unwrap_or_else(|_| Err(varlink::context!(varlink::ErrorKind::Generic))))
+        let th = self.th.take()?;
+        match self.done.recv_timeout(Duration::from_secs(20)) {
+            Ok(r) => {
+                let _ = th.join();
+                Some(r)
+            }
+            Err(mpsc::RecvTimeoutError::Disconnected) => {
+                let _ = th.join();
+                Some(Err(varlink::context!(varlink::ErrorKind::Generic)))
+            }
+            Err(mpsc::RecvTimeoutError::Timeout) => {
+                self.stuck = true;
+                eprintln!("vh: listen() did not return within 20 s of the stop flag; leaving it behind");
+                None
+            }
+        }
     }
 }
 
@@ -534,7 +595,13 @@ pub fn run_socket_sync(address: &str, log: &SharedLog, chunks: &[Vec<u8>], senti
         let mut signalled = false;
         let needle = stok.into_bytes();
         let mut status = "eof";
+        let t0 = Instant::now();
         loop {
+            // a peer that never stops sending (a server looping on a reply) must not keep the reader, and the run, going for ever
+            if all.len() > (96 << 20) || (t0.elapsed() > Duration::from_secs(40) && all.len() > (4 << 20)) {
+                status = "flood";
+                break;
+            }
             match rd.read(&mut buf) {
                 Ok(0) => break,
                 Ok(n) => {
@@ -594,8 +661,12 @@ pub fn run_socket_sync(address: &str, log: &SharedLog, chunks: &[Vec<u8>], senti
     if write_stalled {
         obs.note = format!("the server stopped reading: a write did not complete within {:?}", HANG_TIMEOUT);
     }
+    if status == "flood" {
+        obs.note = format!("the peer kept sending without end ({} bytes and going)", obs.out.len());
+        obs.out.truncate(1 << 20);
+    }
     obs.end = match (sentinel.is_some(), first, status) {
-        _ if write_stalled => "hang".into(),
+        _ if write_stalled || status == "flood" => "hang".into(),
         (true, "sentinel", _) => "open".into(),
         (true, "eof", _) | (true, "reset", _) => "closed".into(),
         (true, _, _) => "hang".into(),
